@@ -26,7 +26,8 @@ def mutate(unit, mu: str) -> dict[str, str]:
     T = unit["T"]  # noqa: N806
     x = f"{PKG}/x{T}"
     names = decl_names(unit)
-    cls_src = lambda n: f"class {n}:\n    def um{T}(self, a: int) -> str:\n        return ''\n"  # noqa: E731
+    # (the methods USE self: only names that occur in expressions enter the analyser's package-wide alias table)
+    cls_src = lambda n: f"class {n}:\n    def um{T}(self, a: int) -> str:\n        return self.uh{T}()\n\n    def uh{T}(self) -> str:\n        return ''\n"  # noqa: E731
     fun_src = lambda n: f"def {n}(z: str, y: str = 'u') -> str:\n    return z\n"  # noqa: E731
 
     def as_src(n: str) -> str:
